@@ -29,6 +29,10 @@ type c12Script struct {
 	Note    string      `json:"note,omitempty"`
 	// Before: coordinate pairs checked earlier in the SAME two buffers (CheckOnCurve only)
 	Before [][2]string `json:"before,omitempty"`
+	// FinalEOF (GenerateKey): the read that completes the accepted candidate also returns
+	// io.EOF; ViaGlobal: the device is installed as crypto/rand.Reader
+	FinalEOF  bool `json:"final_eof,omitempty"`
+	ViaGlobal bool `json:"via_global,omitempty"`
 }
 
 type c12 struct{}
@@ -59,7 +63,7 @@ func (c12) Meta() core.Meta {
 			"oracle": "sm2ref (range predicates on math/big, affine [d]G, curve equation)"},
 		Assumptions: []string{"sm2ref is correct (anchors)", "TestPrivateKey is judged on 32-byte strings only (as stated)", "DerivePublic may return an error for any input it does not want (statement: [d]G or an error), but must not panic or return a wrong point",
 			"CheckOnCurve must return false for coordinates that are not exactly 32 bytes"},
-		FaultKinds: []string{"short", "stall", "cand:0", "cand:n-1", "cand:>=n", "wire:bitflip", "wire:+n", "wire:+p", "wire:swap", "wire:truncate", "wire:extend", "wire:offcurve", "reused-receive-buffers"},
+		FaultKinds: []string{"short", "stall", "cand:0", "cand:n-1", "cand:>=n", "wire:bitflip", "wire:+n", "wire:+p", "wire:swap", "wire:truncate", "wire:extend", "wire:offcurve", "reused-receive-buffers", "final-read-carries-EOF"},
 		ProbeNames: []string{"gen:rejected>=1", "gen:rejected>=3", "gen:cand=0", "priv:boundary", "curve:x>=p", "curve:offcurve", "curve:oncurve", "derive:error-ok"},
 		StepUnit:   "reader calls + library calls",
 	}
@@ -216,7 +220,11 @@ func (c12) Generate(idx int, r *core.Rand, tier string) core.Script {
 	f := r.Split("faults")
 	switch w.Weighted(4, 3, 3, 4) {
 	case 0:
-		s := &c12Script{Op: "GenerateKey", Content: c12GenContent(w, nil)}
+		s := &c12Script{Op: "GenerateKey", Content: c12GenContent(w, nil), ViaGlobal: w.Chance(1, 8)}
+		if f.Chance(1, 10) {
+			s.FinalEOF = true
+			return s
+		}
 		if f.Chance(1, 3) {
 			for i := f.Range(1, 8); i > 0; i-- {
 				switch f.Intn(3) {
@@ -340,10 +348,23 @@ func (c12) Execute(sc core.Script, keep bool) *core.Result {
 		if rejected >= 3 {
 			res.Probes["gen:rejected>=3"]++
 		}
-		dev := rng.New(s.Content, s.Program, log)
+		prog := s.Program
+		if s.FinalEOF {
+			prog = nil
+			for i := 0; i < rejected; i++ {
+				prog = append(prog, rng.Step{Kind: "full"})
+			}
+			prog = append(prog, rng.Step{Kind: "err", N: 32, Err: "EOF"})
+			res.Faults["final-read-carries-EOF"]++
+		}
+		dev := rng.New(s.Content, prog, log)
 		var d1, x1, y1 []byte
 		var err1 error
-		p, txt, _, _ := core.Catch(func() { d1, x1, y1, err1 = sm2.GenerateKey(dev) })
+		p, txt, _, _ := core.Catch(func() {
+			c := sm2Call{Op: "GenerateKey", ViaGlobal: s.ViaGlobal}
+			outs, e1 := c.run(dev)
+			d1, x1, y1, err1 = outs[0], outs[1], outs[2], e1
+		})
 		for k, v := range dev.Fired {
 			res.Faults[k] += v
 		}
@@ -496,9 +517,9 @@ func (c12) Shrinks(sc core.Script) []core.Script {
 		c.Program = nil
 		out = append(out, c)
 	}
-	for i := range s.Content.Candidates {
+	for _, rg := range core.DropRanges(len(s.Content.Candidates)) {
 		c := cp()
-		c.Content.Candidates = append(c.Content.Candidates[:i], c.Content.Candidates[i+1:]...)
+		c.Content.Candidates = append(c.Content.Candidates[:rg[0]], c.Content.Candidates[rg[1]:]...)
 		out = append(out, c)
 	}
 	return out
